@@ -141,11 +141,17 @@ def _fresh_outcome(P, cls, buf):
         from contracts.framing import DECLARED
         if cls.__name__ in DECLARED:
             P.assume(n == DECLARED[cls.__name__](buf))  # clause K8 of a framing unit: n is what its header declares
-    return abstract_instance(cls), ops.wrap_int(n)
+    o = abstract_instance(cls)
+    if isinstance(o, SObj):
+        o.abstract_n = n                               # how many bytes it was parsed from (used by clause K5)
+    return o, ops.wrap_int(n)
 
 
 FRAMING_NAMES = set()
 ITEM_CLASSES = set()      # classes used as items of a parsable vector (clause K2i applies to them)
+
+
+K5_LENGTHS = False      # set by checks/c05: a nested object parsed from n bytes composes to n bytes (listed assumption)
 
 
 def spec_abstract_compose(self):
@@ -158,6 +164,8 @@ def spec_abstract_compose(self):
         seq, facts = V.base_seq('composed_%s' % self.cls.__name__, 'bytearray')
         for f in facts:
             P.assume(f)
+        if K5_LENGTHS and getattr(self, 'abstract_n', None) is not None:
+            P.assume(seq.n == self.abstract_n)         # assumed nested clause K5L: re-encoding keeps the length
         self.f[key] = seq
     return self.f[key].copy('bytearray')
 
